@@ -15,6 +15,10 @@ def index_kinds(n: int, which=None):
         "neg": pd.RangeIndex(-n, 0),
         "datetime": pd.date_range("2021-03-01", periods=n, freq="D"),
         "period": pd.period_range("2021-03", periods=n, freq="M"),
+        # repeated index VALUES (several rows per day / per month, e.g. hourly data indexed by its day): accepted by the
+        # library's input check (monotonic, not necessarily unique); positions are what the outputs speak about
+        "datetime_dup": pd.DatetimeIndex([pd.Timestamp("2021-03-01") + pd.Timedelta(days=i // 3) for i in range(n)]),
+        "period_dup": pd.PeriodIndex([pd.Period("2021-03", freq="M") + i // 2 for i in range(n)]),
     }
     return kinds if which is None else {k: kinds[k] for k in which}
 
